@@ -58,6 +58,10 @@ def honest_case(suite, sk, msg):
     sig = BL.call(S.Sign, sk, msg)
     if sig[0] != "ok" or not isinstance(sig[1], bytes) or len(sig[1]) != 96:
         return ("Sign", "96 bytes", sig)
+    # history: the same key bytes offered to KeyValidate in other byte-like types first (whatever
+    # those calls answer or raise, they must not influence the verdict for the bytes key)
+    for wrap in (memoryview, bytearray):
+        BL.call(S.KeyValidate, wrap(pk[1]))
     v = BL.verdict(S.Verify, pk[1], msg, sig[1])
     if v is not True:
         return ("Verify", True, v)
